@@ -40,6 +40,18 @@ T = {
  "C19-A": ("C19", "table.go NumDigits: fixed-point estimate of bits*log10(2) slightly too small", "bit lengths 15437, 17573, ... in the band [10^k, 2^bl): 10^4647 reported with 4647 digits"),
  "C19-B": ("C19", "decimal.go Decimal.Reduce big path: one descending pass of trial divisions by 10^128..10^1", ">= 256 trailing zeros: zeros left, count 255"),
  "C20-A": ("C20", "round.go: half comparison in uint64 with remVal<<1 overflowing", "exactly 19 digits discarded with fraction >= 0.9223 under a half mode: Round not monotone"),
+ "R2-C01-A": ("C01", "table.go NumDigits: float64 estimate of log10|b| trusted unless within 1e-11 of an integer (less than one ulp once the estimate exceeds 65536)", "coefficient (operand or exact intermediate) of one of 1818 specific lengths >= 65557 digits starting with >= 11 nines: digit count one too high, result rounded to p-1 digits"),
+ "R2-C03-A": ("C03", "error.go ErrDecimal.Err: memoises its verdict per Flags value, ignoring later changes of Ctx.Traps or of Ctx", "an untrapped condition raised through an ErrDecimal, then the trap set tightened (or Ctx replaced) between calls: Err() stays nil and later destinations are written"),
+ "R2-C04-A": ("C04", "table.go tableExp10: second lazily filled table of 10^(128i) with 1563 entries and no fallback", "NumDigits (or a parser) on an integer of about 200065 digits or more: index out of range panic"),
+ "R2-C05-A": ("C05", "decimal.go Modf: uses frac.Coeff (or integ.Coeff) as the scratch for 10^exp", "Decimal.Modf with frac == receiver (or integ == receiver and frac nil), more than 128 fraction digits and a coefficient long enough for the point to fall inside it"),
+ "R2-C06-A": ("C06", "decimal.go NewWithBigInt: struct assignment for non-negative coefficients shares a heap big.Int with the caller's BigInt", "NewWithBigInt from a BigInt >= 2^128 that is still in use (or used for a second Decimal), then an in-place operation on one of the sharers"),
+ "R2-C09-A": ("C09", "table.go tableExp10: lock-free direct-mapped cache (128 slots, key and value in separate atomics)", "concurrent Quantize/RoundToIntegral*/Ceil/Floor with different rescale distances > 128 that are congruent mod 128: a goroutine is handed the wrong power of ten; no data race"),
+ "R2-C12-A": ("C12", "context.go Pow: one-entry cache of ln(base) keyed on a struct copy of the base that shares its heap big.Int with the caller's operand", "fractional y, base of >= 39 digits, then the same operand object changed in place (same sign, exponent, digit count) and raised again at the same working precision: old_x ** y is returned. Caught by C06's same-object history family (the C12 oracle sees every single call correct on fresh operands)"),
+ "R2-C13-A": ("C13", "bigint.go SetString: two-halves uint128 parser for 20..38-digit strings with a wrong carry test (<= instead of <)", "33..38-digit coefficient whose floor(c/10^19) is a non-zero multiple of 2^45 (2^a*10^b with b >= 19, a+b >= 64): parses back 2^64 too large"),
+ "R2-C14-A": ("C14", "decimal.go setString: rejects mantissas longer than 200001 characters, counting insignificant leading zeros", "grammatical in-range numeric string of more than 200 KB (redundant leading zeros or all zeros)"),
+ "R2-C15-A": ("C15", "decimal.go Cmp / table.go: digit-count bounds from the bit length with an integer approximation of log10(2) that is 3.6e-11 high", "coefficient of exactly 55267 (76573, 110534, ...) digits starting with 0.99998604...: Cmp wrong against an equal-or-larger operand with another exponent; only the thorough digit sweep reaches it"),
+ "R2-C16-A": ("C16", "bigint.go Sqrt: float64 fast path for operands below 2^53", "operand k^2-1 in (2^52, 2^53): result one too large"),
+ "R2-C18-A": ("C18", "table.go tableExp10: lock-free direct-mapped cache (512 slots) publishing value before key", "concurrent calls needing 10^x and 10^x' with x != x' congruent mod 512 (coefficients of 201 and 713 digits): wrong power of ten, no data race"),
  "C20-B": ("C20", "context.go add(): far-operand fast path passes y.Negative instead of the effective sign", "Sub with y tiny (gap > 128) under a directed mode: Sub(x,y) != Add(x,-y)"),
 }
 ver = {}
